@@ -34,7 +34,7 @@ def delegated : Call → Call
 /-- T15.2 (all methods) for visible names the base receives exactly the caller's arguments -/
 theorem nonhidden_delegates (hs : List Path) (c : Call)
     (hvis : ∀ n ∈ guardedNames c, isHidden n hs = .ok false)
-    (hanc : ∀ o n, c = .rename o n → isParentOfHidden o hs = .ok false) :
+    (hanc : ∀ o n, c = .rename o n → isParentOfHidden o hs = .ok false ∧ isParentOfHidden n hs = .ok false) :
     translate hs c = .ok (delegated c) := by
   cases c
   all_goals try (
@@ -46,7 +46,7 @@ theorem nonhidden_delegates (hs : List Path) (c : Call)
     have h1 := hvis o (Or.inl rfl)
     have h2 := hvis n (Or.inr rfl)
     simp only [translate, delegated, bind, Except.bind, pure, Except.pure, hguard_of_visible _ h1,
-      hguard_of_visible _ h2, hanc o n rfl]
+      hguard_of_visible _ h2, (hanc o n rfl).1, (hanc o n rfl).2]
   · rename_i o n
     simp only [guardedNames, List.mem_cons, List.not_mem_nil, or_false] at hvis
     have h1 := hvis _ (Or.inl rfl)
@@ -73,7 +73,10 @@ theorem arguments_unchanged (hs : List Path) (c c' : Call) (h : translate hs c =
       · cases h
       · split at h
         · cases h
-        · cases h; rfl
+        · split at h
+          · cases h
+          · cases h
+          · cases h; rfl
   · rename_i o n
     split at h
     · cases h
